@@ -128,7 +128,7 @@ def make_recipe(rng, tier):
         r["n"] = n = max(n, 4)
         r["bad"] = ["too-few-means", "too-many-variances", "cpt-beyond-n", "cpt-negative",
                     "anomaly-beyond-n", "anomaly-empty", "anomaly-reversed", "anomaly-negative",
-                    "anomaly-wrong-arity", "anomaly-means-mismatch"][int(rng.integers(10))]
+                    "anomaly-wrong-arity", "anomaly-means-mismatch", "anomaly-list-empty"][int(rng.integers(11))]
     return r
 
 
@@ -360,6 +360,27 @@ def exec_case(ctx, r):
             "anomaly-wrong-arity": (generate_anomalous_data, (n, [(1, 2, 3)], 1.0, 1.0, seed)),
             "anomaly-means-mismatch": (generate_anomalous_data, (n, [(0, 1), (2, 3)], [1.0, 2.0, 3.0], 1.0, seed)),
         }
+        if bad == "anomaly-list-empty":
+            # an empty LIST of anomalies: "empty anomalies raise ValueError"; the statement can also be read as
+            # "no anomaly requested" = the standard-normal output everywhere.  Either is accepted; any other
+            # exception (or other values) is not.
+            mm = [1.0, [1.0], np.ones(p)][seed % 3]
+            st, out = call(generate_anomalous_data, n, [], mm, 1.0, seed)
+            label = f"generate_anomalous_data(n={n}, anomalies=[], means={mm!r}, seed={seed})"
+            if st == "other":
+                ctx.violation("invalid-arguments", f"wrong-exception[{bad}]", f"{label}: raised {out}", r)
+            elif st == "ok":
+                pp = 1 if seed % 3 < 2 else p
+                _, z = call(generate_anomalous_data, n, [(0, 1)], np.zeros(pp), np.ones(pp), seed)
+                if out.shape != (n, pp) or not np.array_equal(out.to_numpy(), z.to_numpy()):
+                    ctx.violation("invalid-arguments", f"accepted[{bad}]", f"{label}: accepted, but the output is "
+                                  "not the standard-normal output for the same seed", r)
+                ctx.stat("empty_anomaly_list_returned_noise")
+            else:
+                ctx.stat("empty_anomaly_list_rejected")
+            ctx.nt(digest(r))
+            ctx.sample(r)
+            return
         f, a = calls[bad]
         st, out = call(f, *a)
         label = f"{f.__name__}{a!r:.160}"
